@@ -1160,9 +1160,9 @@ def c12(case, F):
         r = e["r"]
         if root_pid is None:
             root_pid = r.get("tracker_pid")
-        if c["a"]["what"] == "kill":
+        if c["a"]["what"] == "kill" and not r.get("skipped"):
             killed_times.append(e["t"])
-        if c["a"]["what"] == "signal" and r.get("tracker_state") in (None, "Z"):
+        if c["a"]["what"] == "signal" and not r.get("skipped") and r.get("tracker_state") in (None, "Z"):
             v.append((_sig(case, F, "tracker_died_on_signal", sig=c["a"]["sig"]), witness_text(case, F, "the tracker (pid %s) died on %s" % (r.get("tracker_pid"), c["a"]["sig"]))))
     # a spawn right after a tracker death: same (relaunched) tracker in parent and child, child's registration outlives the child
     child_files = []
